@@ -36,7 +36,7 @@ neighbour gets its first move from an all-zero probability vector (flat index -1
 symptoms of this one cause are seen: the target stays at (-1, n-1) (default config key 589; 5x5/4 agents
 keys 189, 401, 465), or the random walk continues from that off-grid cell, re-enters the grid and ends on
 an in-grid target that its own wire does not join to the start, leaving a stray cell at (n-1, n-1) (5x5/4
-agents key 61; 4x4/3 agents key 125).  A board is classified by the cause (an agent whose start has no
+agents key 125; default config key 535).  A board is classified by the cause (an agent whose start has no
 neighbouring cell of its own wire on the solved board) and reported under the ONE signature
 `connector.RandomWalkGenerator:agent-coordinate-outside-grid`; the regression inputs are part of BOTH tiers.
 
@@ -49,7 +49,11 @@ Other findings on the pinned tree (each under its own signature; see the final r
  * `mmst.SplitRandomGenerator:node-degree-exceeds-max-degree` (`add_edge` rejects only when degree >
    max_degree, so max_degree + 1 is reached) and `mmst.SplitRandomGenerator:edge-count-differs-from-num-edges`
    (edge codes are direction dependent, (a,b) and (b,a) are stored as two edges, so the graph has fewer
-   distinct edges than `num_edges`).  Both contradict the generator docstring, neither affects solvability.
+   distinct edges than `num_edges`); rarely (thorough window) `graph-not-connected` (docs: 'a random connected
+   graph'; 10 nodes key 1270) and `self-loop` (single-agent 6-node graph, key 489: a node that could not be
+   linked because of the degree limit is walked onto and then linked to itself).  All four contradict the
+   generator docstring / docs; none makes an instance unsolvable (every agent's nodes stay connected inside
+   its own sub graph).
 """
 from __future__ import annotations
 
@@ -109,20 +113,24 @@ def specs() -> List[Dict[str, Any]]:
         S.append(spec(f"connector.UniformRandomGenerator({n},{a})", f"G.connector.UniformRandomGenerator({n},{a})",
                       "connector_uniform", "connector.UniformRandomGenerator", dict(grid=n, agents=a),
                       small=n <= 3))
-    # regression inputs of defect #9 (both tiers): 589 / 189, 401, 465 leave the target at (-1, n-1); at
-    # (5,4) key 61 the walk continues from the off-grid cell instead (same cause, other symptom)
-    regress = {(10, 10): [589], (5, 4): [61, 189, 401, 465]}
+    # regression inputs of defect #9 (both tiers): at 589 / 189, 401, 465 the target stays at (-1, n-1); at
+    # (4,3) key 125 and (10,10) key 535 the walk continues from the off-grid cell (same cause, other symptom)
+    regress = {(10, 10): [535, 589], (5, 4): [189, 401, 465], (4, 3): [125]}
     for n, a in [(3, 1), (3, 2), (4, 2), (4, 3), (5, 3), (5, 4), (6, 5), (7, 3), (10, 10)]:
         S.append(spec(f"connector.RandomWalkGenerator({n},{a})", f"G.connector.RandomWalkGenerator({n},{a})",
                       "connector_walk", "connector.RandomWalkGenerator", dict(grid=n, agents=a), mode="connector_pair",
                       small=n <= 3, extra_keys=regress.get((n, a), []), quick=(n, a) in [(3, 2), (4, 3), (5, 4), (10, 10)]))
 
     # ---- mmst ----------------------------------------------------------------------------------
+    # regression keys (both tiers) of the two rare MMST findings: a disconnected graph (10 nodes, key 1270) and a
+    # self loop (single-agent 6-node graph, key 489); these two sizes use a 16-key window in the quick tier
+    mm_reg = {10: [1270], 6: [489]}
     for nn, ne, d, a, m, t in [(36, 72, 5, 3, 4, 70), (12, 18, 4, 2, 3, 6), (10, 12, 3, 2, 2, 10), (20, 30, 4, 4, 2, 20),
                                (17, 24, 4, 3, 2, 12), (8, 9, 3, 2, 2, 8), (6, 6, 3, 1, 3, 8)]:
         S.append(spec(f"mmst.SplitRandomGenerator({nn},{ne},{d},{a},{m})",
                       f"G.mmst.SplitRandomGenerator({nn},{ne},{d},{a},{m},{t})", "mmst", "mmst.SplitRandomGenerator",
-                      dict(nodes=nn, edges=ne, max_degree=d, agents=a, per_agent=m), quick=nn in (36, 12, 8)))
+                      dict(nodes=nn, edges=ne, max_degree=d, agents=a, per_agent=m), quick=nn in (36, 12, 8, 10, 6),
+                      extra_keys=mm_reg.get(nn, []), k_quick=16 if nn in mm_reg else None))
 
     # ---- flat pack -----------------------------------------------------------------------------
     for r, c in [(1, 1), (1, 3), (2, 2), (3, 2)]:
@@ -178,7 +186,7 @@ def specs() -> List[Dict[str, Any]]:
     for n, cap, dm in [(1, 3, 3), (4, 10, 5), (7, 7, 7), (3, 5, 1), (20, 30, 10)]:
         S.append(spec(f"cvrp.UniformGenerator({n},{cap},{dm})", f"G.cvrp.UniformGenerator({n},{cap},{dm})", "cvrp",
                       "cvrp.UniformGenerator", dict(nodes=n, max_capacity=cap, max_demand=dm)))
-    for n, v in [(6, 2), (6, 3), (20, 2), (20, 3), (50, 2), (50, 5), (100, 4), (150, 6)]:
+    for n, v in [(6, 2), (6, 3), (20, 2), (20, 3), (50, 2), (50, 5), (100, 4), (150, 5)]:
         S.append(spec(f"multi_cvrp.UniformRandomGenerator({n},{v})", f"G.multi_cvrp.UniformRandomGenerator({n},{v})",
                       "multi_cvrp", "multi_cvrp.UniformRandomGenerator", dict(customers=n, vehicles=v),
                       quick=(n, v) in [(6, 2), (6, 3), (20, 2), (50, 5)]))
@@ -363,7 +371,8 @@ def main(tier: str, seed: int) -> int:
     K = core.window(tier)
     rep.assumptions += [
         f"reset keys limited to the fixed window PRNGKey(0..{K - 1}) per (generator, size) plus the listed regression "
-        "keys; the 2^64 key space is not enumerable (DESIGN §6); a few constant generators use a shorter window",
+        "keys; the 2^64 key space is not enumerable (DESIGN §6); constant generators use 8 / 32 keys; FlatPack 5x5 "
+        "(slow exact-cover search) uses 32 / 512 keys; the two MMST regression sizes use 16 keys in the quick tier",
         "sizes limited to the listed parameter tuples per generator (minimum, odd/even, non-square, default)",
         "continuous data (coordinates, weights) only as produced by the window",
         "saturation of small instance spaces (no new instance in the second half of the window) is evidence, not proof",
@@ -374,7 +383,8 @@ def main(tier: str, seed: int) -> int:
         "100k (thorough) nodes per instance and undecided instances are counted (flatpack_exact_cover_undecided), never reported "
         "either way",
     ]
-    rep.coverage["exhaustive"] = not only
+    if only:
+        rep.coverage["exhaustive"] = False  # filtered debugging run
     rep.coverage["key_window"] = K
     rep.coverage["generator_size_tasks"] = len(tasks)
     if only:
